@@ -58,6 +58,10 @@ namespace mc
     void data_read(const void* addr, const char* label = nullptr, const void* pc = nullptr, std::uint64_t key = 0);
     void data_write(const void* addr, const char* label = nullptr, const void* pc = nullptr, std::uint64_t key = 0);
     void forget_range(const void* addr, std::size_t size);  // memory (re)allocated or freed
+    // innermost call sites of the running thread (maintained by the instrumentation
+    // callbacks); recorded with every access so that a race inside a standard-library
+    // helper can be attributed to the library line that called it
+    void set_call_context(const void* c0, const void* c1, const void* c2);
 
     // ---- scenario side
     void note(const std::string& key);            // folded into the state hash (scenario position)
